@@ -14,9 +14,9 @@ TYPES = {
 
 
 def fn(ty, impl, name, args='', upd=None, ret=None, rty=None, ring=True, raw=None, run=None, place=None,
-       fresh_actuals=None, symx_impl=None, **kw):
+       fresh_actuals=None, symx_impl=None, nosymx=False, **kw):
     return dict(ty=ty, impl=impl, name=name, args=args, upd=upd, ret=ret, rty=rty, ring=ring, raw=raw, run=run,
-                place=place, fresh_actuals=fresh_actuals, symx_impl=symx_impl, kw=kw)
+                place=place, fresh_actuals=fresh_actuals, symx_impl=symx_impl, nosymx=nosymx, kw=kw)
 
 
 def inverse_fn(T, p, V, sub, some_anchor):
@@ -51,6 +51,7 @@ def field_fns(T, p, extra_unary=()):
         fn(T, F, 'sub_assign', args='&mut self, other: &Self', upd=f'{p}sub(SELF, other.v())', ring=False),
         fn(T, F, 'mul_assign', args='&mut self, other: &Self', upd=f'{p}mul(SELF, other.v())'),
         fn(T, F, 'square', args='&mut self', upd=f'{p}sq(SELF)'),
+        fn(T, F, 'frobenius_map', args='&mut self, power: usize', upd=f'{p}frob(SELF, power as int)', ring=False, nosymx=True),
     ]
     return L
 
@@ -99,6 +100,9 @@ pub proof fn lemma_f12in(x: &Fq12) ensures f12in(x.v()) { lemma_f6in(&x.c0); lem
         info = TYPES[T]
         u.add(u.real_item(info['mod'], 'struct', r'struct ' + T + r'\b', derive='Clone, Copy'))
         rj.declare_type(T)
+    for c in ('FROBENIUS_COEFF_FQ2_C1', 'FROBENIUS_COEFF_FQ6_C1', 'FROBENIUS_COEFF_FQ6_C2', 'FROBENIUS_COEFF_FQ12_C1'):
+        u.add(u.real_const('fq', c))
+    u.add_spec('tower_frob.vrs', symx=False)
     for f in FNS:
         rj.add_fn(f)
     rj.finish()
